@@ -186,7 +186,8 @@ class MergeContract(Contract):
         for i, w in enumerate(ex.st.writes):
             kind, P, Hb, info = w
             if kind == 'kids':
-                out.append(('C03.frame_only_addressed_parent#%d' % i, self.frame_parent_ok(cx, P)))
+                # child lists of nodes created by this merge (fresh copies) may be written freely
+                out.append(('C03.frame_only_addressed_parent#%d' % i, z3.Or(born(P) > 0, self.frame_parent_ok(cx, P))))
                 out.append(('C13.message_not_modified#%d' % i, z3.Not(is_msg(P))))
             elif kind == 'tag':
                 out.append(('C03+C13.tag_written_only_on_fresh_nodes#%d' % i, born(P) > 0))
